@@ -60,6 +60,7 @@ class Comparator:
         """env: field -> '<' | '=' | '>' (relation of first argument's field to second's)."""
         self.env = env
         self.locals = {}
+        self.side_locals = {}
         try:
             self._stmt(self.func.body)
         except _Return as r:
@@ -94,6 +95,14 @@ class Comparator:
                                                           "widely separated keys compare wrongly"
                                                           % (self.func.name, d.get("type"), d.get("name"), render(i0)))
                             continue
+                    if ini:
+                        i1 = strip(ini[0], casts=True)
+                        if i1["kind"] == "MemberExpr":
+                            b1 = strip(kids(i1)[0], casts=True)
+                            if b1["kind"] == "DeclRefExpr" and b1["ref"]["id"] in (self.pa, self.pb):
+                                # a copy of one argument's field: stands for that field
+                                self.side_locals[d["id"]] = ("a" if b1["ref"]["id"] == self.pa else "b", i1["name"])
+                                continue
                     self.locals[d["id"]] = self._expr(ini[0]) if ini else None
         elif k == "BinaryOperator" and n.get("opcode") == "=":
             l = strip(kids(n)[0])
@@ -123,6 +132,8 @@ class Comparator:
                             % (self.func.name, render(n)))
         if n["kind"] == "DeclRefExpr" and n["ref"]["id"] in getattr(self, "arith_locals", {}):
             raise Unordered(self.arith_locals[n["ref"]["id"]])
+        if n["kind"] == "DeclRefExpr" and n["ref"]["id"] in self.side_locals:
+            return self.side_locals[n["ref"]["id"]]
         raise AnalysisBroken("comparator %s: unsupported operand %s" % (self.func.key, render(n)))
 
     def _expr(self, n):
